@@ -147,13 +147,35 @@ def body(case):
     return out
 
 
+TWIN_POOL = [1, True, 1.0, 0, False, 0.0, 2, 2.0, "1", "0", "", None, -1, -1.0]
+
+
+def gen_twins(r):
+    """Containers holding scalars that compare equal but differ in type (1 / True / 1.0,
+    0 / False / 0.0, 2 / 2.0) x the type-sensitive leaves: every item must still get its
+    own boolean."""
+    vals = [r.choice(TWIN_POOL) for _ in range(r.between(2, 7))]
+    doc = vals if r.coin(60) else {f"k{i}": v for i, v in enumerate(vals)}
+    c = r.pct()
+    if c < 55:
+        leaf = Leaf("value", None, "is_instance", args=tuple(r.subset([bool, int, float, str, type(None)], 1, 2)))
+    elif c < 75:
+        leaf = Leaf("value", "dtype", r.choice(["equal_to", "not_equal_to"]), kwargs={"value": r.choice([bool, int, float, str])})
+    elif c < 90:
+        leaf = Leaf("value", "dtype", r.choice(["in_", "not_in"]), kwargs={"value": r.subset([bool, int, float, str], 1, 2)})
+    else:
+        leaf = G.leaf(r, ("value",), "typed")
+    return leaf, doc
+
+
 def tests(tier):
     return [
         TestSpec(
             "leaf-filter",
             gen_case,
             body,
-            {"quick": 40, "thorough": 30000},
+            {"quick": 60, "thorough": 30000},
             factors=model.leaf_shapes(),
-        )
+        ),
+        TestSpec("type-twins", gen_twins, body, {"quick": 600, "thorough": 60000}, tape=256),
     ]
